@@ -21,6 +21,7 @@ type driver struct {
 	res    *hx.Result
 	e      *Env
 	tw     *hx.TraceWriter
+	tw2    *hx.TraceWriter // gated leg: the other linearization order of every history
 	rng    *rand.Rand
 	shard  int
 	family string
@@ -507,6 +508,14 @@ func TestDriver(t *testing.T) {
 			d.driveRevisions(ntraces, nops)
 		case "concurrent":
 			d.driveConcurrent(ntraces, nops)
+		case "gated":
+			tw2, err := hx.NewTraceWriter(filepath.Join(os.Getenv("VERIF_WORK"), fmt.Sprintf("hosttrace-gatedalt-%d.ndjson", shard)))
+			if err != nil {
+				t.Fatal(err)
+			}
+			d.tw2 = tw2
+			d.driveGated(os.Getenv("VERIF_GATED_ONLY"))
+			tw2.Close()
 		case "overflow":
 			d.driveOverflow(hx.EnvInt("VERIF_MAXLEN", 4))
 		case "clientfree":
